@@ -1,10 +1,127 @@
+import PdshVerif.Base.Hex
+import PdshVerif.Opt.Settings
+import PdshVerif.Opt.Spec
 import Driver.Util
 
-/-! engine stub: filled in by the owner of this engine (see FRAMEWORK.md) -/
-namespace Driver.OptDrv
+/-!
+  line protocol of the `opt` engine (property C18); every line is a list of `key=value` words,
+  strings hex-encoded ("-" = empty string), an absent key = "not given".
 
-def main (_args : List String) : IO UInt32 := do
-  IO.eprintln "engine not implemented"
-  return 2
+  `pdshmodel opt model <d4><d5><atoi><dopt>`
+      pers=dsh|pdcp|rpdcp luser=HEX lmax=N prog=HEX avail=HEX,HEX,.. env=NAMEHEX:VALHEX,.. argv=HEX,HEX,..
+        -> "exit N"
+         | "ok <fanout> <ctmo> <utmo> <ruser> <rcmd|~> <misc|~> <path> q=<0|1> S=<0|1> k=<0|1> term=<0|1> mw=<A|B>"
+  `pdshmodel opt spec`
+      pers=.. luser= lmax= prog= avail= dfr=HEX(default rcmd) st=0|1
+      cf= ef= ct= et= cu= eu= cl= cR= eR= cM= eM= ce= ee=       (texts per setting: c* command line, e* environment)
+      obs=rej:<diag>  |  obs=hang  |  obs=acc:<fanout>:<ctmo>:<utmo>:<ruser>:<rcmd>:<path>   [mw=HEX]
+        -> "ok" | space-separated violated clauses
+-/
+namespace Driver.OptDrv
+open PdshVerif PdshVerif.Opt
+
+def kv (ws : List String) (key : String) : Option String :=
+  ws.findSome? fun w =>
+    match w.splitOn "=" with
+    | k :: rest => if k = key then some ("=".intercalate rest) else none
+    | [] => none
+
+def hexStr (s : String) : Option Str := Hex.decodeToChars s
+
+def kvHex (ws : List String) (key : String) : Option Str := (kv ws key).bind hexStr
+
+def hexList (s : String) : Option (List Str) :=
+  if s = "" then some [] else (s.splitOn ",").mapM hexStr
+
+def parsePers (s : String) : Option Pers :=
+  if s = "dsh" then some .dsh else if s = "pdcp" then some .pdcp else if s = "rpdcp" then some .rpdcp else none
+
+def parseEnv (s : String) : Option Env :=
+  if s = "" then some []
+  else (s.splitOn ",").mapM fun e =>
+    match e.splitOn ":" with
+    | [n, v] => do let n' ← hexStr n; let v' ← hexStr v; pure (n', v')
+    | _ => none
+
+def parseDefaults (ws : List String) : Option Defaults := do
+  let luser ← kvHex ws "luser"
+  let lmax ← (kv ws "lmax").bind String.toNat?
+  let prog ← kvHex ws "prog"
+  let avail ← hexList ((kv ws "avail").getD "")
+  pure { luser := luser, loginMax := lmax, progPath := prog, rcmdModules := avail }
+
+def b01 (b : Bool) : String := if b then "1" else "0"
+
+def optHex : Option Str → String
+  | none => "~"
+  | some s => Hex.encodeChars s
+
+def stepModel (fx : Fixes) (line : String) : String :=
+  let ws := Driver.words line
+  match (kv ws "pers").bind parsePers, parseDefaults ws, parseEnv ((kv ws "env").getD ""),
+        hexList ((kv ws "argv").getD "") with
+  | some p, some d, some env, some argv =>
+    match effective fx d p env argv with
+    | .exit n => s!"exit {n}"
+    | .ok c =>
+      s!"ok {c.fanout} {c.connectTimeout} {c.commandTimeout} {Hex.encodeChars c.ruser} {optHex c.rcmdName} " ++
+      s!"{optHex c.miscModules} {Hex.encodeChars c.remotePath} q={b01 c.infoOnly} S={b01 c.retRemoteRc} " ++
+      s!"k={b01 c.killOnFail} term={b01 (runTerminates c)} mw={String.ofList (miscWinner c)}"
+  | _, _, _, _ => "bad-op"
+
+def sources (ws : List String) (c e : String) : Spec.Sources :=
+  { cmdline := kvHex ws c, env := kvHex ws e }
+
+def parseObs (s : String) : Option Spec.Obs :=
+  match s.splitOn ":" with
+  | ["rej", d] => some (.rejected (d = "1"))
+  | ["hang"] => some .hang
+  | ["acc", f, ct, ut, ru, rc, pa] => do
+    let f ← f.toInt?
+    let ct ← ct.toInt?
+    let ut ← ut.toInt?
+    let ru ← hexStr ru
+    let rc ← hexStr rc
+    let pa ← hexStr pa
+    pure (.accepted f ct ut ru rc pa)
+  | _ => none
+
+def stepSpec (line : String) : String :=
+  let ws := Driver.words line
+  match (kv ws "pers").bind parsePers, parseDefaults ws with
+  | some p, some d =>
+    let cfg : Spec.Config :=
+      { pcp := p.isPcp,
+        fanout := sources ws "cf" "ef", ctmo := sources ws "ct" "et", utmo := sources ws "cu" "eu",
+        ruser := kvHex ws "cl", rcmd := sources ws "cR" "eR", misc := sources ws "cM" "eM",
+        path := sources ws "ce" "ee",
+        dfltFanout := DFLT_FANOUT, dfltCtmo := CONNECT_TIMEOUT, dfltUtmo := 0,
+        dfltUser := d.luser, loginMax := d.loginMax, avail := d.rcmdModules,
+        dfltRcmd := kvHex ws "dfr", dfltPath := d.progPath,
+        structOk := (kv ws "st") ≠ some "0" }
+    let a := match (kv ws "obs").bind parseObs with
+      | some o => some (Spec.judge cfg o)
+      | none => none
+    let m := match kvHex ws "mw" with
+      | some w => Spec.judgeMisc cfg w
+      | none => []
+    match a, kv ws "obs" with
+    | none, some _ => "bad-op"
+    | _, _ =>
+      let all := a.getD [] ++ m
+      if all = [] then "ok" else " ".intercalate all
+  | _, _ => "bad-op"
+
+def main (args : List String) : IO UInt32 := do
+  let stdin ← IO.getStdin
+  match args with
+  | ["model", bits] =>
+    match bits.toList with
+    | [a, b, c, e] =>
+      let fx : Fixes := ⟨a = '1', b = '1', c = '1', e = '1'⟩
+      Driver.forLines stdin () (fun _ l => ((), stepModel fx l)); return 0
+    | _ => IO.eprintln "usage: pdshmodel opt model <d4 d5 atoi dopt>"; return 2
+  | ["spec"] => Driver.forLines stdin () (fun _ l => ((), stepSpec l)); return 0
+  | _ => IO.eprintln "usage: pdshmodel opt model <bits>|spec"; return 2
 
 end Driver.OptDrv
